@@ -121,10 +121,11 @@ def check(ctx):
                 continue
             evs = post_dispatch(tr)
             facts = tr.path.st.facts if tr.path.st is not None else {}
-            h = ("attr", ping, "alarm")
-            isnone = facts.get(("truthy", h)) is False or facts.get(("nonnull", h)) is False
+            isnone = any(isinstance(k, tuple) and k[0] in ("truthy", "nonnull") and v is False
+                         and hd.handle_location(k[1], tr) == ("ping", "alarm") for k, v in facts.items())
             cn = [e for e in evs if e.kind == "CANCEL" and hd.handle_location(e.a["handle"], tr) == ("ping", "alarm")]
-            cl = [e for e in evs if e.kind == "SETATTR" and e.a["obj"] == ping and e.a["field"] == "alarm" and e.a["val"] == NONE]
+            cl = [e for e in evs if e.kind == "SETATTR" and hd.obj_location(e.a["obj"], tr) == ("ping",) and hd.logical(e.a["field"]) == "alarm"
+                  and e.a["val"] == NONE]
             fn = evs[0].func if evs else ""
             if isnone:
                 eff = [e for e in evs if is_effect(e)]
